@@ -245,8 +245,25 @@ impl AnalysisWriteGuard {
     pub fn update_files_by_uri(&mut self, files: Vec<(Uri, Option<String>)>, st: &mut Shared) -> (r: Vec<FileId>)
         ensures final(st).g@ == (St { analysis: apply_updates(old(st).g@.analysis, files@), ..old(st).g@ }),
     { unimplemented!() }
+    /// `cleanup_nonexistent_files` (emmylua_code_analysis/src/lib.rs), read off its text at the uri level: every non-std local document whose file does
+    /// not exist (Path::exists, now) is removed — whether or not it is open in the editor
+    #[verifier::external_body]
+    pub fn cleanup_nonexistent_files(&mut self, st: &mut Shared)
+        ensures
+            final(st).g@ == (St { analysis: final(st).g@.analysis, ..old(st).g@ }),
+            forall|u: Uri| #![trigger final(st).g@.analysis.contains_key(u)] opt_at(final(st).g@.analysis, u)
+                == (if managed(u) && !sp_exists(sp_path(u)->0, old(st).g@.epoch) { None::<Text> } else { opt_at(old(st).g@.analysis, u) }),
+    { unimplemented!() }
+    /// `reindex`: clears the index and rebuilds it from the Vfs texts (`get_all_file_ids`, `clear_index`, `update_index`): no text changes — it takes no
+    /// ghost state, so it cannot change any
+    #[verifier::external_body]
+    pub fn reindex(&mut self) { }
+    /// the call of the text-sync handlers. STORE FIRST: a handler must have written the store before it touches the analysis (otherwise a reload
+    /// could take its last snapshot in between and leave the analysis on the disk text) — checked here as far as a sequential reading can: an open
+    /// document's text in the store is the text handed to the analysis
     #[verifier::external_body]
     pub fn update_file_by_uri(&mut self, uri: &Uri, text: Option<String>, st: &mut Shared) -> (r: Option<FileId>)
+        requires text matches Some(t) ==> (old(st).g@.store().contains_key(*uri) ==> old(st).g@.store()[*uri]@ == t@),
         ensures final(st).g@ == (St { analysis: match text { Some(t) => old(st).g@.analysis.insert(*uri, t@), None => old(st).g@.analysis.remove(*uri) }, ..old(st).g@ }),
     { unimplemented!() }
 }
@@ -272,6 +289,8 @@ impl FileDiagnostic {
     pub fn clear_push_file_diagnostics(&self, uri: Uri) { }
     #[verifier::external_body]
     pub fn add_workspace_diagnostic_task(&self, interval: u64, silent: bool, st: &mut Shared) ensures env(old(st).g@, final(st).g@) { }
+    #[verifier::external_body]
+    pub fn add_diagnostic_task(&self, file_id: FileId, interval: u64, st: &mut Shared) ensures env(old(st).g@, final(st).g@) { }
 }
 #[verifier::external_body] pub struct LspFeatures { _p: () }
 impl LspFeatures {
@@ -303,6 +322,17 @@ pub mod lsp_types { pub use super::Uri; }
 /// lsp_types parameter types of didClose, transcribed as data (emmy_lsp_types 0.1.0, all fields pub)
 pub struct TextDocumentIdentifier { pub uri: Uri }
 pub struct DidCloseTextDocumentParams { pub text_document: TextDocumentIdentifier }
+#[verifier::external_body] pub struct Range { _p: () }
+pub struct TextDocumentItem { pub uri: Uri, pub language_id: String, pub version: i32, pub text: String }
+pub struct DidOpenTextDocumentParams { pub text_document: TextDocumentItem }
+pub struct VersionedTextDocumentIdentifier { pub uri: Uri, pub version: i32 }
+pub struct TextDocumentContentChangeEvent { pub range: Option<Range>, pub range_length: Option<u32>, pub text: String }
+pub struct DidChangeTextDocumentParams { pub text_document: VersionedTextDocumentIdentifier, pub content_changes: Vec<TextDocumentContentChangeEvent> }
+impl WorkspaceManager {
+    /// pushes the pending reindex further into the future (DebounceToken: C30); no effect on the store or the matcher (`&self`)
+    #[verifier::external_body]
+    pub fn extend_reindex_delay(&self) { }
+}
 
 // ---- helpers introduced by the unit-local rewrite rules --------------------------------------------------------------------------------------------
 /// rule `c29-clone-files`: `<Vec<(Uri, String)> as Clone>::clone` — element-wise clone; lsp_types::Uri and String clone to equal values
@@ -551,9 +581,9 @@ pub proof fn lemma_acts_wf(acts: Seq<OpenFileSyncAction>, af: Seq<(Uri, String)>
 }
 /// `apply_open_file_sync` has applied the next snapshot `(nv, nf)` and the actions for what left the applied one `(v, af)`
 #[verifier::spinoff_prover]
-pub proof fn lemma_after_apply(mid: St, s2: St, v: u64, af: Seq<(Uri, String)>, nv: u64, nf: Seq<(Uri, String)>, acts: Seq<OpenFileSyncAction>, wm: WorkspaceManager, e: nat)
+pub proof fn lemma_after_apply(mid: St, s2: St, af: Seq<(Uri, String)>, nv: u64, nf: Seq<(Uri, String)>, acts: Seq<OpenFileSyncAction>, wm: WorkspaceManager, e: nat)
     requires
-        inv(mid, v, af), pre(mid, nv, nf), s2 == (St { analysis: s2.analysis, ..mid }),
+        closed_ok(mid, af), pre(mid, nv, nf), s2 == (St { analysis: s2.analysis, ..mid }),
         sync_applied(mid.analysis, s2.analysis, nf, acts, s2.epoch),
         acts_upto(acts, af, af.len() as int, nf, wm, e),
     ensures inv(s2, nv, nf)
@@ -621,6 +651,39 @@ pub proof fn lemma_load(s2: St, s3: St, v: u64, open: Seq<(Uri, String)>, files:
     }
 }
 
+// ---- the reindex task ----------------------------------------------------------------------------------------------------------------------------------
+/// `cleanup_nonexistent_files` only removes: closed documents stay disk-like (open ones may have lost their text: that is the finding / what the
+/// re-application of the open documents repairs)
+#[verifier::spinoff_prover]
+pub proof fn lemma_cleanup(s1: St, s2: St, e: nat)
+    requires
+        base(s1), closed_ok(s1, Seq::<(Uri, String)>::empty()), s2 == (St { analysis: s2.analysis, ..s1 }),
+        forall|u: Uri| #![trigger s2.analysis.contains_key(u)] opt_at(s2.analysis, u)
+            == (if managed(u) && !sp_exists(sp_path(u)->0, e) { None::<Text> } else { opt_at(s1.analysis, u) }),
+    ensures base(s2), closed_ok(s2, Seq::<(Uri, String)>::empty())
+{
+    let em = Seq::<(Uri, String)>::empty();
+    assert(s2.store() == s1.store() && s2.pclose() == s1.pclose());
+    assert forall|u: Uri| #![trigger s2.store().contains_key(u)] managed(u) && s2.wm.ws(u) && !s2.store().contains_key(u) && !listed(em, u) && s2.pclose() != Some(u)
+        implies disk_like(s2.analysis, u) by {
+        assert(s2.analysis.contains_key(u) || !s2.analysis.contains_key(u));
+        assert(s1.store().contains_key(u) || !s1.store().contains_key(u));
+        assert(disk_like(s1.analysis, u));
+    }
+}
+pub proof fn lemma_closed_weaken(s: St, f: Seq<(Uri, String)>)
+    requires closed_ok(s, Seq::<(Uri, String)>::empty())
+    ensures closed_ok(s, f)
+{ }
+pub proof fn lemma_cur_wf(wm: WorkspaceManager, f: Seq<(Uri, String)>)
+    requires files_ok(wm, f)
+    ensures cur_wf(f), acts_wf(Seq::<OpenFileSyncAction>::empty(), f), acts_upto(Seq::<OpenFileSyncAction>::empty(), f, f.len() as int, f, wm, 0)
+{
+    assert forall|i: int, j: int| 0 <= i < f.len() && 0 <= j < f.len() && (#[trigger] f[i]).0 == (#[trigger] f[j]).0 implies f[i].1@ == f[j].1@ by {
+        assert(wm.store()[f[i].0]@ == f[i].1@ && wm.store()[f[j].0]@ == f[j].1@);
+    }
+}
+
 // ---- extracted from /repo: the open-file store ------------------------------------------------------------------------------------------------------
 impl WorkspaceManager {
     //@@ WorkspaceManager::update_match_state
@@ -647,5 +710,17 @@ impl WorkspaceManager {
 
 //@@ apply_workspace_reload
 
-// ---- extracted from /repo: the didClose handler (the GUARANTEE side of `m_close` / `m_flush_close`) ---------------------------------------------------
+// ---- extracted from /repo: the text-sync handlers (the GUARANTEE side of the micro steps of the interleaving model) --------------------------------
+/// what a didOpen / didChange (u, t) that runs on its own does: `m_upd` (store first) followed by `m_flush_upd`, with a fresh `should_process`
+pub open spec fn upd_effect(a: St, b: St, u: Uri, t: String) -> bool {
+    &&& wm_sync(a.wm, b.wm, u, t)
+    &&& b.analysis == (if a.analysis.contains_key(u) || a.wm.ws(u) { a.analysis.insert(u, t@) } else { a.analysis })
+}
+//@@ on_did_open_text_document
+
+//@@ on_did_change_text_document
+
 //@@ on_did_close_document
+
+// ---- extracted from /repo: the body of the reindex task (a statement slice of `reindex_workspace`) ---------------------------------------------------
+//@@ reindex_task_step
